@@ -90,6 +90,17 @@ def verdict_discipline(P, R, V):
             again = [t for t in f.block_sites(s.bid)[s.idx + 1:] if sends(t)]
             again += [t for b in f.reach([e.dst for e in f.out[s.bid]]) for t in f.block_sites(b) if sends(t)]
             R.ob('C01.MPT.1', not again, s, 'no second verdict line is reachable behind this one', key='one-verdict', detail=[t.loc for t in again] or None)
+        # silence: between the verdict line and the return nothing else is written about the client - the only calls
+        # behind it that can reach the sender are the retiring ones (whose module notifications C01.WMC keeps quiet)
+        em = core.emitters(P)
+        for s in f.sites():
+            if not sends(s):
+                continue
+            later = [t for t in f.block_sites(s.bid)[s.idx + 1:]] + [t for b in f.reach([e.dst for e in f.out[s.bid]]) for t in f.block_sites(b)]
+            noisy = [t for t in later if t.ev['k'] == 'call' and not retires(t) and any(x.key in em for x in P.callees(t, True))
+                     and any(is_var(y, rq) for a in t.ev['args'] for y in walk(a))]
+            R.ob('C01.MPT.1', not noisy, s, 'nothing else is written about the client between its verdict line and the return of %s' % f.name, key='verdict-then-silence',
+                 detail=[t.loc for t in noisy] or None)
         # ordering: the retire comes after the mark and the send on every path
         for s in f.sites():
             if not retires(s):
